@@ -46,6 +46,14 @@ Theorem C04_failed_only_if_idle_pilot_cannot_fit :
 Proof. exact never_rule_only_when_idle. Qed.
 Print Assumptions C04_failed_only_if_idle_pilot_cannot_fit.
 
+(* on an idle pilot an allocation attempt is decided at once: started if the
+   search finds a placement, failed if not -- never left waiting *)
+Theorem C04_idle_pilot_decides :
+  forall ns0 c s t s' res,
+    SInv ns0 s -> heldg s = [] -> try_allocation c s t = (s', res) -> res <> TWait.
+Proof. exact idle_pilot_decides. Qed.
+Print Assumptions C04_idle_pilot_decides.
+
 (* the only exceptions the placement search raises are the documented ones *)
 Theorem C04_search_exceptions :
   forall c s t e off, schedule_task c s t = inl (e, off) -> e = EValue \/ e = EAssert.
